@@ -685,7 +685,7 @@ Section Core.
     intros path o obj os oafters id ks Hq Hin Hfk. unfold kid, restrict_key, key_id. simpl p_type. simpl p_service.
     rewrite lookup_filter_key.
     - rewrite lookup_app. unfold key_kv. destruct (K obj); simpl; rewrite (lookup_key_entries_id _ _ _ Hq Hin); reflexivity.
-    - intros v. simpl. apply (proj2 (existsb_eqb_In _ _)) in Hfk. rewrite Hfk. reflexivity.
+    - intros v. cbn [fst]. apply (proj2 (existsb_eqb_In _ _)) in Hfk. rewrite Hfk. reflexivity.
   Qed.
 
   Lemma fresh_part_keyed : forall L obj id kvs,
@@ -717,7 +717,7 @@ Section Core.
     inversion Hp; subst p. simpl p_path.
     pose proof (flat_ok_sels_for _ _ _ _ o Ht Hflat) as Hflat_o.
     pose proof (sels_for_local _ _ _ _ o Ht) as Hloc.
-    assert (Hpre : pre_ok w g (key_kv K obj id) obj id (sels_for tagged o)).
+    assert (Hpre : pre_ok g (key_kv K obj id) obj id (sels_for tagged o)).
     { split; [exists []; rewrite app_nil_r; reflexivity|]. split.
       - intros k Hk. unfold key_kv in Hk. destruct (K obj); [|contradiction]. destruct Hk as [<-|[]].
         split; [|discriminate]. intros Hin. apply in_map_iff in Hin as [n [Hn Hin]].
@@ -733,7 +733,7 @@ Section Core.
     rewrite (kid_key [] o obj os oafters id ks Hq Hid Hfk).
     assert (He : exec1 w g (Plan [] o obj os oafters) id = Some (JObj (key_kv K obj id ++ kvs_o))).
     { cbn [exec1]. rewrite eval_obj_eq. exact Hrun. }
-    rewrite He. cbn [List.length Nat.eqb negb]. rewrite graft_nil_obj.
+    cbn [mapo]. rewrite He. cbn [List.length Nat.eqb negb]. rewrite graft_nil_obj.
     destruct Hpost as [Hnd [Hkeys Hvals]].
     assert (Hkeys_o : forall k, In k (map fst kvs_o) -> lookup k L = None /\ k <> "__key").
     { intros k Hk. apply Hkeys in Hk as [Hk|[Hx _]]; [|discriminate]. apply in_map_iff in Hk as [n [Hn Hin]]. subst k.
@@ -751,5 +751,54 @@ Section Core.
         * right. unfold key_kv in Hin. destruct (K obj) eqn:Ek; [|contradiction]. destruct Hin as [Heq|[]].
           inversion Heq; subst. split; [reflexivity | apply Hkey; reflexivity].
         * left. apply (proj1 (Hkeys_o k (in_map fst _ _ Hin))).
+  Qed.
+
+  Lemma NoDup_app_intro : forall {A} (a b : list A), NoDup a -> NoDup b -> (forall x, In x a -> ~ In x b) -> NoDup (a ++ b).
+  Proof.
+    intros A a b Ha Hb Hd. induction Ha as [|x t Hx Ht IH]; [exact Hb|]. simpl. constructor.
+    - intros Hin. apply in_app_or in Hin as [Hin|Hin]; [contradiction | apply (Hd x (or_introl eq_refl) Hin)].
+    - apply IH. intros y Hy. apply Hd. right; exact Hy.
+  Qed.
+
+  (** different groups of one selection set have different aliases *)
+  Lemma groups_disjoint : forall obj svc sels tagged o1 o2 n m,
+    mapo (target_of g pick obj svc) sels = Some tagged -> NoDup (map n_alias sels) -> o1 <> o2 ->
+    In n (sels_for tagged o1) -> In m (sels_for tagged o2) -> n_alias n <> n_alias m.
+  Proof.
+    intros obj svc sels tagged o1 o2 n m Ht Hnd Hne Hn Hm He.
+    destruct (sels_for_in _ _ _ _ _ _ Ht Hn) as [In1 T1]. destruct (sels_for_in _ _ _ _ _ _ Ht Hm) as [In2 T2].
+    pose proof (alias_inj _ _ _ Hnd In1 In2 He) as Heq. subst m. rewrite T1 in T2. inversion T2. contradiction.
+  Qed.
+
+  (** ** all sub-plans for other services *)
+  Lemma phase2 : forall fuel, S_stmt w g pick fuel -> forall obj svc sels tagged id ks,
+    mapo (target_of g pick obj svc) sels = Some tagged -> flat_ok g obj sels = true ->
+    obj <> "Query" -> In "id" ks ->
+    forall others oplans, Forall2 (fun o p => other_plan g pick fuel obj tagged o = Some p) others oplans ->
+    NoDup others -> (forall o, In o others -> In "id" (fkeys_of g obj o)) ->
+    forall L, lookup federation_field L = Some (JObj (key_kv K obj id ++ key_entries obj id ks)) ->
+    (K obj = true -> lookup "__key" L = Some (JNum id)) ->
+    (forall o n, In o others -> In n (sels_for tagged o) -> lookup (n_alias n) L = None) ->
+    exists exts, RA oplans (JObj L) = Some (JObj (L ++ List.concat exts)) /\
+                 Forall2 (fun o kvs => post w g obj id (sels_for tagged o) false kvs) others exts.
+  Proof.
+    intros fuel HS obj svc sels tagged id ks Ht Hflat Hq Hid others oplans HF.
+    assert (Hnds : NoDup (map n_alias sels)).
+    { unfold flat_ok in Hflat. apply andb_prop in Hflat as [H1 _]. apply nodup_str_NoDup; exact H1. }
+    induction HF as [|o p others oplans Hp _ IH]; intros Hnd Hfk L Hfed Hkey Hfresh.
+    - exists []. cbn [List.concat]. rewrite RA_nil, app_nil_r. split; [reflexivity | constructor].
+    - inversion Hnd as [|? ? Hno Hnd']; subst.
+      destruct (other_step fuel HS obj svc sels tagged o p id ks L Ht Hflat Hp Hq Hid (Hfk o (or_introl eq_refl)) Hfed Hkey
+                  (fun n Hn => Hfresh o n (or_introl eq_refl) Hn)) as [kvs_o [Hstep Hpost]].
+      rewrite RA_cons, Hstep.
+      destruct (IH Hnd' (fun o' Ho' => Hfk o' (or_intror Ho')) (L ++ kvs_o)) as [exts [Hrun HF2]].
+      + rewrite lookup_app, Hfed. reflexivity.
+      + intros Hk. rewrite lookup_app, (Hkey Hk). reflexivity.
+      + intros o2 n Ho2 Hn. rewrite lookup_app, (Hfresh o2 n (or_intror Ho2) Hn).
+        apply lookup_none_notin. intros Hin. destruct Hpost as [_ [Hkeys _]]. apply Hkeys in Hin as [Hin|[Hx _]]; [|discriminate].
+        apply in_map_iff in Hin as [m [Hm Hin]].
+        assert (Hne : o <> o2) by (intros ->; contradiction).
+        apply (groups_disjoint _ _ _ _ _ _ _ _ Ht Hnds Hne Hin Hn). exact Hm.
+      + exists (kvs_o :: exts). split; [|constructor; auto]. rewrite Hrun. simpl. rewrite <- app_assoc. reflexivity.
   Qed.
 End Core.
